@@ -18,7 +18,8 @@
 (*  reading = "lenient" used to judge the EXTRACTOR (C07, C14, C18):        *)
 (*            codes the property is silent about (5 6 22-29 59) may have    *)
 (*            their standard effect or none; selecting an underline kind    *)
-(*            may replace the other kinds (terminal) or add to them (flag); *)
+(*            switches it on and may replace any of the kinds selected      *)
+(*            before (terminal: all, flag reading: none);                   *)
 (*            4:0 and 0 always clear every kind.                            *)
 (***************************************************************************)
 EXTENDS Naturals, Sequences, FiniteSets
@@ -68,9 +69,11 @@ Tokens(gs) ==
 WellFormed(gs) == \A k \in 1..Len(Tokens(gs)) : Tokens(gs)[k] # <<"odd">>
 
 \* selecting underline kind n >= 1
+\* lenient: the selected kind is on; any of the previously selected kinds may have been replaced
+\* (terminal reading: all of them; flag reading: none; anything in between)
 SelUl(gr, n, reading) ==
   IF reading = "strict" THEN {On(gr, UlName(n))}
-  ELSE {On(Off(gr, ULS), UlName(n)), On(gr, UlName(n))}
+  ELSE {On(Off(gr, drop), UlName(n)) : drop \in SUBSET (gr.eff \cap ULS)}
 
 SilentCode(gr, std, reading) == IF reading = "strict" THEN {std} ELSE {std, gr}
 
